@@ -39,17 +39,24 @@ func classifyRef(cc *run.Case, ind *reg.Indicator, cfg reg.Cfg, w int, inputs, a
 	if res.Bad == nil {
 		return
 	}
-	if res.poisoned() {
-		cc.Viol(ind.Name+":nan-poisoning", fmt.Sprintf("%s %v: output %d is non-finite from k=%d on although the documented formula is well-defined there (first ill-conditioned position k=%d)", ind.Name, cfg, res.Bad.Output, res.FirstBadK, res.FirstIllK), detail(res))
-		return
-	}
+	// 1. an exact match with a listed deviation model
+	var devRes []cmpResult
 	for _, d := range ind.Devs {
 		dres := compareRef(ind, w, inputs, actual, d.Ref(cfg, inputs))
+		devRes = append(devRes, dres)
 		if dres.Bad == nil {
 			cc.Viol(ind.Name+":"+d.Key, fmt.Sprintf("%s %v deviates from its documented formula exactly as deviation model %q: %s", ind.Name, cfg, d.Key, d.What), detail(res))
 			return
 		}
-		if dres.poisoned() {
+	}
+	// 2. the "non-finite for good" signature, against the documented formula ...
+	if res.poisoned() {
+		cc.Viol(ind.Name+":nan-poisoning", fmt.Sprintf("%s %v: output %d is non-finite from k=%d on although the documented formula is well-defined there (first ill-conditioned position k=%d)", ind.Name, cfg, res.Bad.Output, res.FirstBadK, res.FirstIllK), detail(res))
+		return
+	}
+	// ... or against a deviation model (both findings at once)
+	for i, d := range ind.Devs {
+		if dres := devRes[i]; dres.poisoned() {
 			cc.Viol(ind.Name+":"+d.Key, fmt.Sprintf("%s %v deviates from its documented formula as deviation model %q: %s", ind.Name, cfg, d.Key, d.What), detail(res))
 			cc.Viol(ind.Name+":nan-poisoning", fmt.Sprintf("%s %v: output is non-finite from k=%d on although the formula is well-defined there (first ill-conditioned position k=%d)", ind.Name, cfg, dres.FirstBadK, dres.FirstIllK), detail(dres))
 			return
